@@ -64,7 +64,7 @@ static const int NMSG = 7;
 
 struct Prior { pl::Instance I; bool fresh = false; };
 
-static void prepare(pl::Instance &I, int prior, unsigned devid) {
+static void prepare(pl::Instance &I, int prior, unsigned devid, const Bytes *early = nullptr) {
     I.create(44100); OPN2_MIDIPlayer *d = I.dev;
     opn2_setNumChips(d, 1); pl::must(opn2_openBankData(d, g_bank.data(), (long)g_bank.size()), "opn2_openBankData(generated bank)", d);
     opn2_setDeviceIdentifier(d, devid);
@@ -74,6 +74,7 @@ static void prepare(pl::Instance &I, int prior, unsigned devid) {
     int mode = prior % 3;
     Bytes m = mode == 0 ? msg(0, devid) : mode == 1 ? msg(3, devid) : msg(6, devid);
     opn2_rt_systemExclusive(d, m.data(), m.size());
+    if(early) opn2_rt_systemExclusive(d, early->data(), early->size());   // reference order: the message under test arrives before the notes are struck
     if(prior >= 3) {
         for(int ch = 0; ch < 3; ch++) { opn2_rt_controllerChange(d, (OPN2_UInt8)ch, 7, 90); opn2_rt_controllerChange(d, (OPN2_UInt8)ch, 11, 70); opn2_rt_controllerChange(d, (OPN2_UInt8)ch, 10, 20); opn2_rt_pitchBend(d, (OPN2_UInt8)ch, 9000); opn2_rt_patchChange(d, (OPN2_UInt8)ch, 1);
             // every other controller a mode switch has to bring back to its default: modulation, portamento, brightness, soft pedal, channel pressure, the bend range (RPN 0) and, last, an NRPN selection left open
@@ -136,7 +137,14 @@ static void run_case(const Bytes &m, int prior, unsigned devid, en::CaseOut &o) 
     case R_GM_OFF: break;   // what "GM off" switches to is not documented: only acceptance + controller reset are required
     case R_GS: if(pp.m_synthMode != OPNMIDIplay::Mode_GS) o.fail("C19/effect/gs", "GS reset accepted but the mode is not GS" + ctx); break;
     case R_XG: if(pp.m_synthMode != OPNMIDIplay::Mode_XG) o.fail("C19/effect/xg", "XG System On accepted but the mode is not XG" + ctx); break;
-    case R_MASTER: if(y.m_masterVolume != r.a) { snprintf(b, sizeof b, "master volume is %u, message says %d", y.m_masterVolume, r.a); o.fail("C19/effect/master-volume", b + ctx); } if(pp.m_synthMode != mode0) o.fail("C19/effect/master-volume-changed-mode", "master volume changed the mode" + ctx); break;
+    case R_MASTER:
+        // "master volume" has an audible effect at once: the levels of the notes that are sounding must be those the same notes get when the message arrives before they are struck
+        if(prior >= 3 && y.m_masterVolume == r.a) { pl::Instance E; prepare(E, prior, devid, &m);
+            // (only chip channels whose note still has its key down: a released note that a pedal keeps sounding is no longer among the channel's notes, and nothing says a volume change must reach it)
+            std::set<int> keydown; for(size_t cc = 0; cc < pp.m_chipChannels.size(); cc++) for(auto j = pp.m_chipChannels[cc].users.begin(); !j.is_end(); ++j) if(j->value.sustained == 0) keydown.insert((int)cc);
+            for(size_t c = 0; c < P->I.tap.chips.size() && c < E.tap.chips.size() && !o.bad; c++) for(int port = 0; port < 2 && !o.bad; port++) for(int reg = 0x40; reg < 0x50; reg++) if(keydown.count((int)c * 6 + port * 3 + (reg & 3)) && (reg & 3) != 3 && P->I.tap.chips[c].regs[port][reg] != E.tap.chips[c].regs[port][reg]) {
+                snprintf(b, sizeof b, "master volume %d accepted, but total-level register %02X (chip %zu port %d) of a sounding note is %u; with the message sent before the notes it is %u", r.a, reg, c, port, P->I.tap.chips[c].regs[port][reg], E.tap.chips[c].regs[port][reg]); o.fail("C19/effect/master-volume-not-applied-to-sounding-notes", b + ctx); break; } }
+        if(y.m_masterVolume != r.a) { snprintf(b, sizeof b, "master volume is %u, message says %d", y.m_masterVolume, r.a); o.fail("C19/effect/master-volume", b + ctx); } if(pp.m_synthMode != mode0) o.fail("C19/effect/master-volume-changed-mode", "master volume changed the mode" + ctx); break;
     case R_DRUM: { static const uint8_t map[16] = {9, 0, 1, 2, 3, 4, 5, 6, 7, 8, 10, 11, 12, 13, 14, 15}; bool want = r.b == 1 || r.b == 2; if(r.b <= 2 && pp.m_midiChannels[map[r.a]].is_xg_percussion != want) { snprintf(b, sizeof b, "drum-part flag of MIDI channel %u is %d, message (part %d, value %d) says %d", map[r.a], (int)pp.m_midiChannels[map[r.a]].is_xg_percussion, r.a, r.b, (int)want); o.fail("C19/effect/drum-part", b + ctx); } break; }
     default: break;
     }
